@@ -74,6 +74,11 @@ def _loop_specs(u):
     return {"%s:%s#%d" % k: v for k, v in u.loops.items()}
 
 
+def _standin(obj):
+    from . import unit as _unit
+    return obj is not None and ((type(obj).__module__ or "").split(".")[0] in ("contracts", "specs", "pyvc") or _unit._BARE.get(id(obj)) is obj)
+
+
 def loader_BindingError():
     from . import loader
     return loader.BindingError
@@ -108,6 +113,15 @@ def run_conc(u, params, given=None, rng=None, timeout=None):
         # the contract names a function / pattern that is not in the changed source: nothing can be executed (undecided)
         res["status"] = "unsupported"
         res["error"] = "unbound: %s" % e
+    except AttributeError as e:
+        # raised outside U.call (the unit drives the code directly): a stand-in of /verif lacking what the code now asks of it
+        # is a limit of the harness, anything else a crash of the harness
+        if _standin(getattr(e, "obj", None)):
+            res["status"] = "unsupported"
+            res["error"] = "stand-in %s has no attribute %r" % (type(e.obj).__name__, getattr(e, "name", "?"))
+        else:
+            res["status"] = "crash"
+            res["error"] = traceback.format_exc()
     except Exception:
         res["status"] = "crash"
         res["error"] = traceback.format_exc()
@@ -182,6 +196,13 @@ def _job(args):
         except RecursionError:
             out["status"] = "unsupported"
             out["error"] = "recursion limit in engine"
+        except AttributeError as e:
+            if _standin(getattr(e, "obj", None)):
+                out["status"] = "unsupported"
+                out["error"] = "Unsupported: stand-in %s has no attribute %r" % (type(e.obj).__name__, getattr(e, "name", "?"))
+            else:
+                out["status"] = "crash"
+                out["error"] = traceback.format_exc()
         except Exception:
             out["status"] = "crash"
             out["error"] = traceback.format_exc()
